@@ -305,3 +305,32 @@ func sortedKeys[V any](m map[string]V) []string {
 	sort.Strings(ks)
 	return ks
 }
+
+// mapMutated reports whether a package-level map variable is written anywhere
+// other than its initialiser (element assignment, delete, or reassignment).
+func (c *Ctx) mapMutated(v *types.Var) bool {
+	mut := false
+	for _, f := range c.Pkg.Syntax {
+		ast.Inspect(f, func(n ast.Node) bool {
+			switch x := n.(type) {
+			case *ast.AssignStmt:
+				for _, l := range x.Lhs {
+					switch y := unparen(l).(type) {
+					case *ast.IndexExpr:
+						if id, ok := unparen(y.X).(*ast.Ident); ok && c.Obj(id) == types.Object(v) {
+							mut = true
+						}
+					}
+				}
+			case *ast.CallExpr:
+				if c.CalleeName(x) == "builtin.delete" && len(x.Args) > 0 {
+					if id, ok := unparen(x.Args[0]).(*ast.Ident); ok && c.Obj(id) == types.Object(v) {
+						mut = true
+					}
+				}
+			}
+			return true
+		})
+	}
+	return mut
+}
